@@ -188,6 +188,83 @@ class XObservation:
         return self._wire
 
 
+class XDataSetObservation(XObservation):
+    """The same interface over an already opened katdal data set of a real format class (thorough tier): one
+    spectral window, one subarray; the structure is read back from the data set itself (via the part-1 reader)."""
+
+    compare_wf = False     # _flags_keep / _weights_keep are format-specific properties (C16)
+
+    def __init__(self, d):
+        b = base.DataSetObservation(d)
+        self.b = b
+        self.d = d
+        self.T = b.T
+        self.timestamps = b.timestamps
+        w = b.spec['w']
+        self.spec = dict(b.spec, subs=[dict(ants=b.spec['ants'], cps=b.cps)], spws=[dict(F=b.F, mk=1)],
+                         spw_vals=[0], spw_events=[0, b.T], sub_vals=[0], sub_events=[0, b.T])
+        assert all(a in ANTS for a in b.spec['ants'])
+        import katpoint
+        self.kant = {a: katpoint.Antenna('%s, -30:42:39.8, 21:26:38.0, 1086.6, 13.5, %d 0 0' % (a, 10 * i))
+                     for i, a in enumerate(ANTS)}
+        self.kant.update({a.name: a for a in b.kants})
+        self.fbase = b.fbase
+        self.fz = [b.fz]
+        self.cps = [b.cps]
+        self.spws = [d.spectral_windows[0]]
+        self.subarrays = [d.subarrays[0]]
+        self.name_ids = b.name_ids
+        self.weight_ids = {}
+        self._wire = None
+
+    def fresh(self):
+        return self.b.fresh()
+
+    def per_dump(self):
+        b = self.b
+        return [[4 * b.spec['gaps'][i], b.scan[i], STATES.index(b.state[i]), b.cscan[i], LABELS.index(b.label[i]), b.tgt[i], 0, 0]
+                for i in range(b.T)]
+
+    def wire(self):
+        if self._wire is None:
+            b = self.b
+            targets = [[[self.name_ids[base.norm_name(n)] for n in t['names']], [self.tag_id(x) for x in t['tags']]]
+                       for t in b.spec['targets']]
+            vocab = [[[codes(x), i] for i, x in enumerate(STATES)], [[codes(x), i] for i, x in enumerate(LABELS)],
+                     [[codes(x), i] for i, x in enumerate(TAGS)], [[codes(x), i] for i, x in enumerate(ANTS)],
+                     [[codes(x)] + self.input_id(x) for x in INPUTS]]
+            self._wire = [self.per_dump(), 2, targets, [[b.fz, 2]],
+                          [[[ANTS.index(a) for a in b.spec['ants']], [self.input_id(x) + self.input_id(y) for x, y in b.cps]]], vocab]
+        return self._wire
+
+
+def run_real_format(ctx, n):
+    """Part-2 histories on two synthetic MVF v4 data sets opened through VisibilityDataV4 (thorough tier)."""
+    import random
+    import shutil
+    for k in range(2):
+        x = base.build_real(k)
+        try:
+            ob = XDataSetObservation(x.d)
+            orng = random.Random(8800 + k)
+            histories = []
+            for _ in range(n):
+                cur, h = [0, 0], []
+                mal = 0.3 if orng.random() < 0.25 else 0.0
+                for _ in range(orng.randint(1, 8)):
+                    c = gen_xcall(orng, ob, cur, mal)
+                    h.append(c)
+                    cur = track(cur, c, ob)
+                histories.append(h)
+            mouts, _ = model_xhistories(ctx, ob, histories)
+            for j, (h, mo) in enumerate(zip(histories, mouts)):
+                run_xhistory(ctx, ob, h, mo, dict(kind='xreal', k=k, n=n, j=j))
+            ctx.count('x:real_format_histories', len(histories))
+        finally:
+            shutil.rmtree(x.tmp, ignore_errors=True)
+    ctx.extra['x_real_format'] = 'VisibilityDataV4 x 2 synthetic data sets, extended model'
+
+
 # ---------------------------------------------------------------------------------------------------------------
 # criteria in their surface forms: (python value, wire xvalue, form tag)
 
@@ -504,7 +581,8 @@ def observe(ob, d):
     def ids(cps):
         return [ob.input_id(str(a)) + ob.input_id(str(b)) for a, b in cps]
     return dict(tk=[int(x) for x in d._time_keep], fk=[int(x) for x in d._freq_keep], bk=[int(x) for x in d._corrprod_keep],
-                keys=list(d._selection.keys()), wk=d._weights_keep, flk=d._flags_keep, spw=int(d.spw), sub=int(d.subarray),
+                keys=list(d._selection.keys()), wk=d._weights_keep if ob.compare_wf else None,
+                flk=d._flags_keep if ob.compare_wf else None, spw=int(d.spw), sub=int(d.subarray),
                 shape=[int(x) for x in d.shape], dumps=[int(x) for x in d.dumps], channels=[int(x) for x in d.channels],
                 freqs=[float(x) for x in d.freqs], cps=ids(d.corr_products), inputs=[ob.input_id(str(x)) for x in d.inputs],
                 ants=[ANTS.index(a.name) for a in d.ants], scans=[int(x) for x in d.scan_indices],
@@ -551,7 +629,7 @@ def compare_state(ctx, ob, call, case, cur, mst, when):
         ctx.disagree(xsignature(call, when + ':spw_subarray'), case, [cur['spw'], cur['sub']], [mst['spw'], mst['sub']],
                      'current spw / subarray differ from the model', kind='tie')
         ok = False
-    for nm, key in (('weights', 'wk'), ('flags', 'flk')):
+    for nm, key in ((('weights', 'wk'), ('flags', 'flk')) if ob.compare_wf else ()):
         if not wf_matches(ob, cur[key], mst[key]):
             ctx.disagree(xsignature(call, '%s:%s_keep' % (when, nm)), case, repr(cur[key]), mst[key],
                          '_%s_keep differs from the model' % nm, kind='tie')
@@ -835,6 +913,25 @@ def replay(ctx, hid):
         h = histories[hid['j']]
         mouts, _ = model_xhistories(ctx, ob, [h])
         run_xhistory(ctx, ob, h, mouts[0], hid)
+        return True
+    if hid.get('kind') == 'xreal':
+        import random
+        import shutil
+        x = base.build_real(hid['k'])
+        try:
+            ob = XDataSetObservation(x.d)
+            orng = random.Random(8800 + hid['k'])
+            for j in range(hid['j'] + 1):
+                cur, h = [0, 0], []
+                mal = 0.3 if orng.random() < 0.25 else 0.0
+                for _ in range(orng.randint(1, 8)):
+                    c = gen_xcall(orng, ob, cur, mal)
+                    h.append(c)
+                    cur = track(cur, c, ob)
+            mouts, _ = model_xhistories(ctx, ob, [h])
+            run_xhistory(ctx, ob, h, mouts[0], hid)
+        finally:
+            shutil.rmtree(x.tmp, ignore_errors=True)
         return True
     if hid.get('kind') == 'helper':
         return True
